@@ -18,6 +18,18 @@ func isMangosPkg(path string) bool {
 	return strings.HasPrefix(path, "go.nanomsg.org/mangos/v3") && !strings.HasPrefix(path, "go.nanomsg.org/mangos/v3/zzverif")
 }
 
+// isEnvPkg: the stubs standing for the operating system and third-party libraries below the transports. What
+// the library hands them must still be the library's to hand over: a stub reading a released buffer is a use
+// after release by the library.
+func isEnvPkg(path string) bool {
+	for _, s := range []string{"/zzverif/vws", "/zzverif/vnet", "/zzverif/vt"} {
+		if strings.HasSuffix(path, s) {
+			return true
+		}
+	}
+	return false
+}
+
 var intrinsics map[string]Intrinsic
 
 func lookupIntrinsic(fn *ssa.Function) Intrinsic {
@@ -613,8 +625,9 @@ func init() {
 			if g.vm.race != nil {
 				g.vm.race.atomicOp(g, p)
 			}
-			if g.vm.ledger != nil {
-				g.access(p, true, pos)
+			if g.vm.ledger != nil && g.vm.lenient == 0 {
+				// ownership only: an atomic operation is no plain access for the race detector
+				g.vm.ledger.access(g, p, true, pos)
 			}
 			nv, ret := f(g, (*p).(IntV), a)
 			*p = nv
